@@ -14,7 +14,8 @@ CHECKS = [
               'a/A/m/h/r, canonical) with a drawn random-writer seed and read back; comparison is atom-wise under the written '
               'order (elements, isotopes, charges, radicals, H, bond orders, tetrahedral/allene/cis-trans signs). Injectivity: '
               'exhaustive enumeration of decorated graphs <= 5 atoms (6 thorough) against brute-force isomorphism classes, and all '
-              'label assignments of sampled molecules against stereo signatures under the brute-force automorphism group.',
+              'label assignments of sampled molecules against stereo signatures under the brute-force automorphism group.'
+              ' str() after reading smiles_atoms_order first must equal str() of a fresh object.',
          note='Trusted: brute-force canonical keys and automorphisms (vf/oracles/iso.py); stereo signs read with _translate_*_sign '
               '(parity-checked in C12); SMILES-inexpressible partial labelling of conjugated polyenes is not generated.',
          technique='round-trip property-based testing (Hypothesis) plus exhaustive small-graph enumeration against brute-force isomorphism'),
@@ -26,7 +27,8 @@ CHECKS = [
               'by the reference reader: valid strings must be accepted and equal, hard-invalid ones rejected, and only '
               'ValueError subclasses may escape; thorough adds atheris coverage-guided campaigns on smiles() and smarts() with '
               'the same oracle inside the target.'
-              ' Atom maps (none / all / dense partial subsets) are written in molecule and reaction text and must become the atom numbers.',
+              ' Atom maps (none / all / dense partial subsets) are written in molecule and reaction text and must become the atom numbers.'
+              ' Every element symbol in four letter cases in six contexts is enumerated (accept exactly the language).',
          note='Trusted: vf/oracles/smiles_ref.py (reference reader + writer), RDKit; grey-zone strings are only required to '
               'return a well-formed object or raise ValueError. D2 is exhaustive for its alphabet and length bound only.',
          technique='grammar/graph-directed generation + exhaustive token enumeration + atheris coverage-guided fuzzing against a reference reader and RDKit'),
@@ -36,7 +38,8 @@ CHECKS = [
               'molecules: the hydrogen count is re-derived from the raw element tables by an independent interpreter, '
               'check_valence() must report exactly the atoms without a state, RDKit must agree on every centre/atom both accept, '
               'and formula/charge/radical/mass totals are recomputed.'
-              ' Isotopic and plain hydrogen atoms attached through the API, then explicify/implicify: every count is re-derived and totals must not move.',
+              ' Isotopic and plain hydrogen atoms attached through the API, then explicify/implicify: every count is re-derived and totals must not move.'
+              ' Several structural edits in one transaction and written bracket hydrogen counts are checked against the tables as well.',
          note='Trusted: the re-implementation of the documented table semantics (vf/oracles/valence_ref.py) and RDKit valence '
               'model as independent judge for common chemistry; consistent edits of exotic data tuples outside RDKit are a stated limit.',
          technique='exhaustive enumeration of centre states + property-based molecules against a table re-derivation and RDKit differential'),
@@ -46,7 +49,8 @@ CHECKS = [
               '(completeness, valence, connectivity, formula, charges, radicals, per-atom H, idempotence, round trip), every '
               'enumerated Kekule form valid/distinct/complete against the perfect-matching count and aromatising to one form, '
               'atom-wise equality of the aromatic form under a drawn rebuild/renumbering, RDKit resonance equivalence.'
-              ' The same conversions are repeated on one object with drawn reads (string, compiled structure, queries, ring set) in between: cache state must not influence the forms.',
+              ' The same conversions are repeated on one object with drawn reads (string, compiled structure, queries, ring set) in between: cache state must not influence the forms.'
+              ' canonicalize(keep_kekule=True) must carry the per-atom data of canonicalize() and only table states.',
          note='Trusted: independent perfect-matching counter (exact only for C / pyridine-N systems, applied only there), MCB '
               'uniqueness oracle, RDKit. Tautomer fixing is held off for per-atom clauses (documented behaviour).',
          technique='property-based testing with a constructive ring-system generator; invariant, round-trip, metamorphic (renumbering) and differential (matching count, RDKit) oracles'),
@@ -56,7 +60,8 @@ CHECKS = [
               'and curated polycycles under random renumbering with coordinate bonds added: ring count, simple cycles of '
               'existing bonds, GF(2) independence, minimum total size against an independent minimum-cycle-basis computation, '
               'and agreement of atom/bond ring marks, ring counts and components with the reported set.'
-              ' Two-assembly molecules (separate components, bonded, linked) exercise the molecule-wide ring count.',
+              ' Two-assembly molecules (separate components, bonded, linked) exercise the molecule-wide ring count.'
+              ' A rejected transaction that looked at the rings of the edited state must leave ring list, counts, marks and components untouched.',
          note='Trusted: vf/oracles/mcb.py (bridge/block finder, exhaustive simple-cycle enumeration, GF(2) elimination). The '
               'recorded theta-type gap is excluded from the minimality clause by an independent structural predicate and counted.',
          technique='exhaustive small-graph enumeration + property-based ring assemblies against an independent minimum cycle basis oracle'),
@@ -77,7 +82,8 @@ CHECKS = [
               'heteroatoms, hybridisation; independent ring oracle; stored charge/isotope/radical/H); stereo-marked queries are '
               'tested against both enantiomers; every bracket token string up to 3 tokens and every bond token is enumerated for '
               'the reject-or-query clause, with a list of out-of-subset SMARTS that must raise the invalid-SMARTS error.'
-              ' A periodic-table sweep checks element, #n, two- and three-member element lists drawn over the whole table, A and M on one- and three-atom molecules of every element.',
+              ' A periodic-table sweep checks element, #n, two- and three-member element lists drawn over the whole table, A and M on one- and three-atom molecules of every element.'
+              ' Ring marks combined with cis/trans marks on one bond (metamorphic), and QueryElement.from_atom with drawn flag subsets.',
          note='Trusted: the documented default semantics of query atoms (charge 0 / non-radical unless given, empty = any, ~ = special '
               'bond), the ring oracle (ring-size primitives only where the minimum cycle basis is unique), an explicit metal list '
               '(ambiguous elements not used).',
@@ -107,7 +113,8 @@ CHECKS = [
               'twelve derived values (canonical string, orderings, ring set, fingerprints, ordered match lists of 12 SMARTS, '
               'canonicalize() result, pack bytes, ...) are each computed uncached, cached, on a copy and on a second fresh object '
               'in the opposite order; all digests must agree within and across processes.'
-              ' canonicalize / standardize_charges / neutralize are applied to a cold and to a warmed fresh object and must agree.',
+              ' canonicalize / standardize_charges / neutralize are applied to a cold and to a warmed fresh object and must agree.'
+              ' A molecule after serving as a reaction member and after a rejected transaction that read the edited state must equal a fresh object.',
          note='Only hash-seed / process / cache-order dependence observable on this platform within six seeds is detectable; '
               'hash(molecule) is excluded by the property text (string hash).',
          technique='configuration-sweep property-based testing (metamorphic: same input, different process/hash seed/cache order)'),
@@ -129,7 +136,8 @@ CHECKS = [
               'RDKit-written V2000/V3000 blocks of corpus molecules are read; one record of a multi-record file is damaged in '
               'three ways; random access on disk equals sequential reading; repository files give the delimiter-counted number '
               'of records.'
-              ' Whether a drawing encodes a label is decided geometrically from the stored coordinates at record precision, never by the library.',
+              ' Whether a drawing encodes a label is decided geometrically from the stored coordinates at record precision, never by the library.'
+              ' Records written in two sessions (append=True) on a real file must read back like one session.',
          note='Trusted: RDKit mol block reader/writer as the independent program (drug-like closed-shell molecules only); stereo is '
               'asserted only where the 2D layout can encode it (non-degenerate wedges, cis/trans reproduced from coordinates) and for '
               'centres without explicit hydrogens.',
@@ -141,7 +149,8 @@ CHECKS = [
               'centre position, H in/outside the bracket, ring-closure neighbours, second component, / \\ placements, dienes, '
               'cumulenes, oximes) judged by RDKit and by mutual equality; (3) single-label inversion never gives an equal molecule, '
               'RDKit agrees; (4) marks on non-stereogenic centres are dropped.'
-              " The library's own writer in eight styles on labelled molecules up to 18 atoms is judged by RDKit against the spelling of the independent writer.",
+              " The library's own writer in eight styles on labelled molecules up to 18 atoms is judged by RDKit against the spelling of the independent writer."
+              ' Wedge notation: every single-wedge marking of a centre (any bond, up/down, either allene terminal) must be stored as a function of the geometric hand; explicit-H spellings also through the RDKit bridge.',
          note='Trusted: parity from permutation cycles, RDKit as the independent toolkit for the absolute convention (carbon centres, '
               'simple double bonds); pseudo-asymmetric and meso situations are excluded from clause (3) by the symmetry oracle.',
          technique='exhaustive permutation/spelling enumeration + property-based testing with parity and RDKit oracles'),
@@ -152,7 +161,8 @@ CHECKS = [
               'compared with an independently rebuilt one (fresh container, same numbers/insertion order, labels through the '
               'public setters), adjacency symmetry, rollback restoration and source independence are asserted. Histories are plain '
               'operation lists, so a failure shrinks and replays as one value.'
-              ' Exhaustive tier: every ordered pair of 117 concrete operations on 8 seeds of <= 4 atoms, with all values read after every step and with single rotating reads (219k histories thorough, 1/40 slice quick).',
+              ' Exhaustive tier: every ordered pair of 117 concrete operations on 8 seeds of <= 4 atoms, with all values read after every step and with single rotating reads (219k histories thorough, 1/40 slice quick).'
+              ' Transactions that edit topology, read derived values inside the block and are rejected; commits with several structural edits.',
          note='Trusted: the rebuild operator and the C01 symmetry oracle / MCB oracle used to skip values that legitimately depend '
               'on the perceived ring set or fall in documented canonicalisation gaps (counted).',
          technique='model-based (stateful) property-based testing with an independent rebuild as reference model'),
@@ -163,7 +173,8 @@ CHECKS = [
               '(neutralize balanced), no valence error or exception, idempotence, explicify-implicify inverse, numbering '
               'independence, tautomer-set properties; all 122 documented (spelling, canonical spelling) pairs of the rule tests, '
               'also under two renumberings, with fired rule indices recorded.'
-              " Geminal double instances of a documented spelling are grafted; the rule tables' Any-atom lists decide whether one call must finish both.",
+              " Geminal double instances of a documented spelling are grafted; the rule tables' Any-atom lists decide whether one call must finish both."
+              ' Every operation is also applied to an object whose derived values were read first.',
          note='Trusted: canonical strings for numbering independence (C01 gaps skipped); documented pairs are read from the '
               'repository\'s own rule tests with ast. Rule instances/grafted spellings are only held to heavy-atom conservation, '
               'idempotence and numbering independence because the tables correct hydrogens/charges of mis-spellings on purpose.',
@@ -174,7 +185,8 @@ CHECKS = [
               'roles; molecules are permuted inside roles and both sides renumbered consistently. Canonical reaction string '
               'invariance, SMILES read-back of roles and molecules (plain and mapped), every atom and bond of the condensed '
               'graph against the ground truth, empty centre for identical sides and invariance of the condensed-graph string.'
-              ' Symmetry of a condensed graph is decided by the independent refinement/orbit oracle on the dynamic labelled graph.',
+              ' Symmetry of a condensed graph is decided by the independent refinement/orbit oracle on the dynamic labelled graph.'
+              ' contract_ions()/remove_reagents() on a reaction with warm caches against a fresh reaction with the same roles.',
          note='Trusted: the ground truth is the generator\'s own edit list; molecule identity within roles uses canonical strings '
               '(C01 gaps skipped) and only for valence-valid reactions.',
          technique='property-based testing with constructed ground truth (reference model = the edit list) and metamorphic permutation/renumbering relations'),
@@ -184,7 +196,8 @@ CHECKS = [
               'labelled-graph patch model computes the expected product of every reported match (deleted atoms and detached '
               'fragments, in-place element/charge/radical/isotope, new atoms and their numbers, bond orders, hydrogens of patched '
               'atoms from the valence re-derivation); one product per match, input untouched, stereo frame condition, identity '
-              'template, unique product numbers, invariance of the product set under renumbering and reactant order.',
+              'template, unique product numbers, invariance of the product set under renumbering and reactant order.'
+              ' Exhaustive reactor mode on a duplicated doubly reactive substrate: only template-named elements may change.',
          note='Trusted: the patch model in the check (semantics from the property text); matches themselves are taken from the '
               'library (C07 decides them). Aromatic ring fixing is off for the atom-wise comparison.',
          technique='model-based property-based testing (labelled-graph patch model) with metamorphic renumbering/order relations'),
@@ -200,7 +213,8 @@ CHECKS = [
               '-4..+4 x radical): lookups against a literal standard table, table-key consistency, mass computability, '
               'pack round trip and independent decoding of the matcher bit layout for every triple. Complete for the '
               'stated finite domain, so exploration here is exhaustive.'
-              " The exact query atom of every state is compiled, compared word for word with the documented layout and tested against every molecule-side state of the element with the matcher's q & m == m rule.",
+              " The exact query atom of every state is compiled, compared word for word with the documented layout and tested against every molecule-side state of the element with the matcher's q & m == m rule."
+              ' Ten different first lookups in fresh interpreters, each followed by all 354 number/symbol lookups.',
          note='Trusted: the literal symbol table in the check, the pyx transliterator (no compiled extension in this '
               'sandbox), the independent bit-layout decoder written from the documented layout.',
          technique='exhaustive enumeration of the finite element/isotope/charge domain with round-trip and independent-decoder oracles'),
